@@ -409,6 +409,65 @@ def gen_dists():
     return "\n".join(L)
 
 
+def gen_fse():
+    """FSE parameters that are plain source text: the spreading step of both `next_position`
+    functions, the production arguments of the table builder (max accuracy logs, zero-bit
+    avoidance flag) in the sequence coder and the Huffman-weight coder, the normaliser's
+    minimum accuracy log."""
+    dec = strip_comments(read("ruzstd/src/fse/fse_decoder.rs"))
+    enc = strip_comments(read("ruzstd/src/fse/fse_encoder.rs"))
+    comp = strip_comments(read("ruzstd/src/encoding/blocks/compressed.rs"))
+    hufe = strip_comments(read("ruzstd/src/huff0/huff0_encoder.rs"))
+    hufd = strip_comments(read("ruzstd/src/huff0/huff0_decoder.rs"))
+    L = ["/- GENERATED by tools/extract.py from /repo — do not edit. -/", "namespace Zstd.Gen", ""]
+    for pfx, text, where in (("fseDec", dec, "fse_decoder.rs"), ("fseEnc", enc, "fse_encoder.rs")):
+        b = fn_body(text, "next_position", "fse")
+        m = re.search(r"p\s*\+=\s*\(table_size\s*>>\s*(\d+)\)\s*\+\s*\(table_size\s*>>\s*(\d+)\)\s*\+\s*(\d+)\s*;\s*p\s*&=\s*table_size\s*-\s*1\s*;", b)
+        if not m:
+            raise ExtractError(f"extract:fse:{where} next_position")
+        L.append(f"/-- `{where}` next_position: `p += (size >> a) + (size >> b) + c; p &= size - 1` -/")
+        L.append(f"def {pfx}StepShrA : Nat := {int(m.group(1))}")
+        L.append(f"def {pfx}StepShrB : Nat := {int(m.group(2))}")
+        L.append(f"def {pfx}StepAdd : Nat := {int(m.group(3))}")
+    # choose_table(..., max_log) calls in compress_block, in source order: ll, ml, of
+    body = fn_body(comp, "compress_block", "fse")
+    calls = re.findall(r"let\s+(ll|ml|of)_mode\s*=\s*choose_table\((.*?)\)\s*;", body, flags=re.S)
+    if [c[0] for c in calls] != ["ll", "ml", "of"]:
+        raise ExtractError("extract:fse:compress_block choose_table calls")
+    for name, args in calls:
+        m = re.search(r",\s*(\d+)\s*,?\s*$", args.strip())
+        if not m:
+            raise ExtractError(f"extract:fse:choose_table {name} max_log")
+        L.append(f"/-- `compressed.rs` compress_block: `choose_table(.., max_log)` for {name} -/")
+        L.append(f"def {name}EncMaxLog : Nat := {int(m.group(1))}")
+    body = fn_body(comp, "choose_table", "fse")
+    m = re.search(r"build_table_from_data\(\s*data\s*,\s*max_log\s*,\s*(true|false)\s*\)", body)
+    if not m:
+        raise ExtractError("extract:fse:choose_table build_table_from_data")
+    L.append("/-- `compressed.rs` choose_table: `build_table_from_data(data, max_log, AVOID)` -/")
+    L.append(f"def seqEncAvoidZeroBits : Bool := {m.group(1)}")
+    m = re.search(r"build_table_from_data\(\s*weights\.iter\(\)\.copied\(\)\s*,\s*(\d+)\s*,\s*(true|false)\s*\)", hufe)
+    if not m:
+        raise ExtractError("extract:fse:huff0_encoder build_table_from_data")
+    L.append("/-- `huff0_encoder.rs`: `build_table_from_data(weights, MAXLOG, AVOID)` -/")
+    L.append(f"def hufWeightsEncMaxLog : Nat := {int(m.group(1))}")
+    L.append(f"def hufWeightsEncAvoidZeroBits : Bool := {m.group(2)}")
+    m = re.search(r"fse_table\.build_decoder\(\s*fse_stream\s*,\s*(\d+)\s*\)", hufd)
+    if not m:
+        raise ExtractError("extract:fse:huff0_decoder build_decoder max_log")
+    L.append("/-- `huff0_decoder.rs`: `fse_table.build_decoder(fse_stream, MAXLOG)` -/")
+    L.append(f"def hufWeightsDecMaxLog : Nat := {int(m.group(1))}")
+    b = fn_body(enc, "build_table_from_counts", "fse")
+    m = re.search(r"let\s+acc_log\s*=\s*\(sum\.ilog2\(\)\s*as\s*u8\s*\+\s*(\d+)\)\.max\((\d+)\)\s*;", b)
+    if not m:
+        raise ExtractError("extract:fse:normaliser acc_log")
+    L.append("/-- `fse_encoder.rs` build_table_from_counts: `(sum.ilog2() + ADD).max(MIN)` -/")
+    L.append(f"def normLogAdd : Nat := {int(m.group(1))}")
+    L.append(f"def normLogMin : Nat := {int(m.group(2))}")
+    L += ["", "end Zstd.Gen", ""]
+    return "\n".join(L)
+
+
 OPS = {">": "a > b", ">=": "a ≥ b", "<": "a < b", "<=": "a ≤ b", "==": "a = b", "!=": "a ≠ b"}
 
 
@@ -1091,6 +1150,7 @@ MODULES = {
     "DecTables": gen_dectables,
     "EncTables": gen_enctables,
     "Dists": gen_dists,
+    "Fse": gen_fse,
     "Guards": gen_guards,
     "Headers": gen_headers,
     "Reset": gen_reset,
